@@ -2,7 +2,7 @@
 
 package main
 
-// With the race-detector build (props/C10.json "race": true) the harness restarts itself once with
+// With the race-detector build (props/C10.json, props/C33.json "race": true) the harness restarts itself once with
 // GORACE="exitcode=0 log_path=<out>/race": reports go to a file that c10exec reads after every op
 // (so that a report is attributed to the program that was running) and do not change the exit status.
 
@@ -25,7 +25,7 @@ func init() {
 			out = os.Args[i+1]
 		}
 	}
-	if prop != "C10" || out == "" {
+	if (prop != "C10" && prop != "C33") || out == "" {
 		return
 	}
 	self, err := os.Executable()
